@@ -50,6 +50,7 @@ def isBlockStmt : Stmt → Bool
   | .if_ .. => true
   | .while_ .. => true
   | .try_ false .. => true
+  | .for_ false .. => true
   | _ => false
 
 theorem exec1_flat (ft : FTab) (fuel : Nat) (s : St) (st : Stmt) (h : isBlockStmt st = false) :
@@ -57,6 +58,10 @@ theorem exec1_flat (ft : FTab) (fuel : Nat) (s : St) (st : Stmt) (h : isBlockStm
   cases st
   case try_ star _ _ _ _ =>
     cases star
+    · simp [isBlockStmt] at h
+    · simp only [exec1, flatExec]; rfl
+  case for_ isAsync _ _ _ _ =>
+    cases isAsync
     · simp [isBlockStmt] at h
     · simp only [exec1, flatExec]; rfl
   all_goals first | (simp [isBlockStmt] at h; done) | (simp only [exec1, flatExec]; rfl)
@@ -113,6 +118,24 @@ theorem orelse_ok (t : SuiteT) (h : Sound t) (ft : FTab) (n : Nat) (s : St) (o :
   | nil => simp [execL_nil]
   | cons x xs => simp only [List.isEmpty_cons, Bool.false_eq_true, if_false]; rw [h.suite, ho]
 
+/-- `for` loops agree when body and `else` agree at every fuel up to the current one -/
+theorem execFor_congr (ft ft' : FTab) (body body' orelse orelse' : List Stmt) (N : Nat)
+    (hb : ∀ f, f ≤ N → ∀ s, execL ft' f s body' = execL ft f s body)
+    (ho : ∀ f, f ≤ N → ∀ s, execL ft' f s orelse' = execL ft f s orelse) :
+    ∀ f, f ≤ N → ∀ (s : St) (x : String) (i k : Int),
+      execFor ft' f s x i k body' orelse' = execFor ft f s x i k body orelse := by
+  intro f
+  induction f with
+  | zero =>
+    intro hf s x i k
+    rw [execFor.eq_1, execFor.eq_1, ho 0 hf]
+  | succ f ihf =>
+    intro hf s x i k
+    rw [execFor.eq_2, execFor.eq_2, hb (f + 1) hf, ho (f + 1) hf]
+    have hrec : ∀ s', execFor ft' f s' x (i + 1) k body' orelse' = execFor ft f s' x (i + 1) k body orelse :=
+      fun s' => ihf (Nat.le_of_succ_le hf) s' x (i + 1) k
+    simp only [hrec]
+
 mutual
 theorem exec1_ok (t : SuiteT) (h : Sound t) (ft : FTab) (n : Nat) (ih : ∀ m, m < n → Good t ft m) :
     (st : Stmt) → (s : St) → exec1 (mapT t ft) n s (travStmt t st) = exec1 ft n s st
@@ -143,10 +166,30 @@ theorem exec1_ok (t : SuiteT) (h : Sound t) (ft : FTab) (n : Nat) (ih : ∀ m, m
     simp only [travStmt]
     rw [h.stmt, exec1_flat _ _ _ _ rfl, exec1_flat _ _ _ _ rfl]
     simp [flatExec, callOf, simpleExec]
-  | .for_ .., s => by
+  | .for_ true .., s => by
     simp only [travStmt]
     rw [exec1_flat _ _ _ _ rfl, exec1_flat _ _ _ _ rfl]
     simp [flatExec, callOf, simpleExec]
+  | .for_ false tg it body orelse, s => by
+    simp only [travStmt]
+    rw [exec1.eq_4, exec1.eq_4]
+    have hb : ∀ f, f ≤ n → ∀ s, execL (mapT t ft) f s (t.suiteF false (travBody t body)) = execL ft f s body := by
+      intro f hf s
+      rw [h.suite]
+      rcases Nat.lt_or_eq_of_le hf with hlt | heq
+      · exact (ih f hlt).2 s body
+      · subst heq; exact execL_ok t h ft f ih body s
+    have ho : ∀ f, f ≤ n → ∀ s, execL (mapT t ft) f s (if orelse.isEmpty then [] else t.suiteF false (travBody t orelse)) = execL ft f s orelse := by
+      intro f hf s
+      apply orelse_ok t h ft f s orelse
+      rcases Nat.lt_or_eq_of_le hf with hlt | heq
+      · exact (ih f hlt).2 s orelse
+      · subst heq; exact execL_ok t h ft f ih orelse s
+    have hfor : ∀ (s : St) (x : String) (k : Int),
+        execFor (mapT t ft) n s x 0 k (t.suiteF false (travBody t body)) (if orelse.isEmpty then [] else t.suiteF false (travBody t orelse))
+          = execFor ft n s x 0 k body orelse :=
+      fun s x k => execFor_congr ft (mapT t ft) body _ orelse _ n hb ho n (Nat.le_refl n) s x 0 k
+    simp only [hfor]
   | .with_ .., s => by
     simp only [travStmt]
     rw [exec1_flat _ _ _ _ rfl, exec1_flat _ _ _ _ rfl]
@@ -157,7 +200,7 @@ theorem exec1_ok (t : SuiteT) (h : Sound t) (ft : FTab) (n : Nat) (ih : ∀ m, m
     simp [flatExec, callOf, simpleExec]
   | .try_ false body hs orelse fin, s => by
     simp only [travStmt]
-    rw [exec1.eq_4, exec1.eq_4, h.suite, execL_ok t h ft n ih body s]
+    rw [exec1.eq_5, exec1.eq_5, h.suite, execL_ok t h ft n ih body s]
     have he : (fun s1 => execL (mapT t ft) n s1 (if orelse.isEmpty then [] else t.suiteF false (travBody t orelse)))
         = (fun s1 => execL ft n s1 orelse) := by
       funext s1; exact orelse_ok t h ft n s1 orelse (execL_ok t h ft n ih orelse s1)
